@@ -1,9 +1,9 @@
 SPECIFICATION Spec
 CONSTANTS
   NW = 2
-  Family = "collect-quick"
-  PeerCounts = {1}
-  MaxChanges = 2
+  Family = "collect-full"
+  PeerCounts = {1, 2}
+  MaxChanges = 1
   Faithful = FALSE
   ShareIdentical = TRUE
   CachedDecide = TRUE
